@@ -29,8 +29,11 @@ pub fn workbook(b: &Value) -> (Value, Vec<((u32, u32), String, String)>) {
     let other = (m.0 + h + 1, m.1);
     exp.push((other, "Z9*2".to_string(), "Z9*2".to_string()));
     let mut toks = Vec::new();
+    // every other workbook in the lax reference style: r on no <row>, on every <c> (the reader's running
+    // row counter then differs from the cells' rows)
+    let lax = (b["si"][0].as_u64().unwrap_or(0) + b["master"][0].as_u64().unwrap_or(0)) % 2 == 1;
     for r in m.0..m.0 + h {
-        toks.push(json!({"k": "row", "r": r}));
+        toks.push(if lax { json!({"k": "row"}) } else { json!({"k": "row", "r": r}) });
         for c in m.1..m.1 + w {
             if (r, c) == m {
                 toks.push(json!({"k": "c", "r": [r, c], "f": master, "fattrs": {"t": "shared", "ref": gref, "si": "0"}, "v": "0"}));
@@ -44,7 +47,7 @@ pub fn workbook(b: &Value) -> (Value, Vec<((u32, u32), String, String)>) {
         }
         toks.push(json!({"k": "rowend"}));
     }
-    toks.push(json!({"k": "row", "r": other.0}));
+    toks.push(if lax { json!({"k": "row"}) } else { json!({"k": "row", "r": other.0}) });
     toks.push(json!({"k": "c", "r": [other.0, other.1], "f": "Z9*2", "v": "0"}));
     toks.push(json!({"k": "rowend"}));
     // second group (column of two cells) with the shared indices chosen by the model
@@ -55,10 +58,10 @@ pub fn workbook(b: &Value) -> (Value, Vec<((u32, u32), String, String)>) {
             t["fattrs"]["si"] = json!(si1.to_string());
         }
     }
-    toks.push(json!({"k": "row", "r": g2.0}));
+    toks.push(if lax { json!({"k": "row"}) } else { json!({"k": "row", "r": g2.0}) });
     toks.push(json!({"k": "c", "r": [g2.0, g2.1], "f": "C3*2", "fattrs": {"t": "shared", "ref": format!("{}:{}", cell_ref(g2.0, g2.1), cell_ref(g2.0 + 1, g2.1)), "si": si2.to_string()}, "v": "0"}));
     toks.push(json!({"k": "rowend"}));
-    toks.push(json!({"k": "row", "r": g2.0 + 1}));
+    toks.push(if lax { json!({"k": "row"}) } else { json!({"k": "row", "r": g2.0 + 1}) });
     toks.push(json!({"k": "c", "r": [g2.0 + 1, g2.1], "f": "", "fattrs": {"t": "shared", "si": si2.to_string()}, "v": "0"}));
     toks.push(json!({"k": "rowend"}));
     exp.push((g2, "C3*2".to_string(), "C3*2".to_string()));
